@@ -354,6 +354,7 @@ impl Error {
     fn into_vec(self) -> Vec<Self> {
         if let ErrorKind::Multiple(errors) = self.kind {
             let locations = self.locations;
+            let span = self.span;
 
             #[cfg(feature = "diagnostics")]
             let children = self.children;
@@ -364,6 +365,12 @@ impl Error {
                     // This is mutated if the diagnostics feature is enabled
                     #[allow(unused_mut)]
                     let mut error = error.prepend_at(locations.clone());
+
+                    // An error without a span of its own inherits the span of the bundle
+                    // it was in; `with_span` never replaces an existing span.
+                    if let Some(span) = span {
+                        error = error.with_span(&span);
+                    }
 
                     // Any child diagnostics in `self` are cloned down to all the distinct
                     // errors contained in `self`.
